@@ -37,7 +37,7 @@ CLAIMED = {
 
 CLAIMED.update({
     "C07": ("proof", "Every function under contract (the whole extracted file: ~105 real functions of utils/const_fns.rs, datetime/mod.rs, timezone/mod.rs, timezone/rule.rs) is verified by Verus in exec mode, where each + - * / % cast, index, slice, unreachable!() and loop generates an obligation: no panic, no overflow with overflow checks on, no out-of-bounds, termination, for all inputs admitted by preconditions that are `true` or constructor-established type invariants. "
-            "The local-time search (find_date_time with its lifted closure, DateTime::find / find_n, the result lists' push / new / data / count / is_exhaustive / unique / earliest / latest of the allocating list) is included, and of the TZif parser the cursor helpers read_exact / read_chunk_exact, parse_header and read_data_blocks (for every input and all 32-bit header counts: no overflow in the block-size arithmetic, no out-of-bounds slicing; by-product: the six header counts decode big-endian in RFC 8536 order, the seven blocks are cut in file order with the RFC's sizes). NOT covered and excluded from the claim: the rest of both parsers (DataBlocks::parse, parse_footer, parse_tz_file, the TZ string parser), Display/format_date_time, TimeZone::{utc, fixed, from_tz_data, local, from_posix_tz} and TimeZoneSettings, TzAsciiStr::as_bytes/as_str, unique/earliest/latest of the result lists, allocation bounds, builds without overflow checks.", "5/C07",
+            "The local-time search (find_date_time with its lifted closure, DateTime::find / find_n, the result lists' push / new / data / count / is_exhaustive / unique / earliest / latest of the allocating list) is included, and of the TZif parser the cursor helpers read_exact / read_chunk_exact, parse_header, read_data_blocks and the control flow of parse_tz_file (for every input and all 32-bit header counts: no overflow in the block-size arithmetic, no out-of-bounds slicing; by-product: the six header counts decode big-endian in RFC 8536 order, the seven blocks are cut in file order with the RFC's sizes). NOT covered and excluded from the claim: the rest of both parsers (the decoder proper DataBlocks::parse - rendered external and unverified -, parse_footer, the TZ string parser), Display/format_date_time, TimeZone::{utc, fixed, from_tz_data, local, from_posix_tz} and TimeZoneSettings, TzAsciiStr::as_bytes/as_str, unique/earliest/latest of the result lists, allocation bounds, builds without overflow checks.", "5/C07",
             "This is a claim about the named function set only (coverage.functions_under_contract); the uncovered public operations are listed in coverage.extraction.not_under_contract. "),
     "C11": ("proof", "AlternateTime::new returns Ok exactly when both offsets are in (-25h, 26h), both times within +-7d and the three start/end relations never change sign over ALL integer years; each error kind names the first violated condition. Complete proof for all 9 notation pairs down to the calendar axioms: year classes and 21 witness years for Jn / n and mixed pairs; for Mm.w.d x Mm.w.d the finite core (all month / week / weekday / year-class combinations) is decided by computation inside Verus (assert by compute) and linked to the calendar by lemmas; the real check functions are proved equal to the decision procedures.", "5/C11, S.1",
             "Additionally trusted for this property: Verus's assert-by-compute interpreter (lemma_mm_compute_*). "),
@@ -61,7 +61,7 @@ CLAIMED.update({
 NA = {
     "C05": "find_date_time is outside Verus's subset (FnMut closure with captured cache, iterator adapters, impl Trait) and every bounded Kani formulation probed ran out of time/memory (DESIGN.md section 5 and 9); its ingredients are proved under C02/C03/C04/C12/C14",
     "C06": "same function as C05; not decidable with the available back ends",
-    "C08": "the body of the TZif decoder (DataBlocks::parse: chunks_exact / zip / map / collect chains; parse_footer: str handling and the TZ string parser) is outside Verus's language subset and beyond CBMC's reach here; only parse_header and read_data_blocks are under contract (as part of C07: header counts in RFC order, blocks in file order with the RFC's sizes) - fidelity of the whole decoder is not decided; see DESIGN.md section 5 and S.14",
+    "C08": "the body of the TZif decoder (DataBlocks::parse: chunks_exact / zip / map / collect chains; parse_footer: str handling and the TZ string parser) is outside Verus's language subset and beyond CBMC's reach here; only the container level is under contract (as part of C07, DESIGN.md S.14: parse_header decodes the six counts in RFC order and accepts exactly well-formed headers, read_data_blocks cuts the seven blocks in file order with the RFC's sizes, parse_tz_file takes the 32-bit block for v1 with nothing after it and the 64-bit block after the second header for v2/v3 with the rest as footer) - the decoding of transitions, local time types, designations, leap records, indicator pairs and the footer is not decided; see DESIGN.md section 5 and S.14",
     "C09": "TZ string parser is outside Verus's subset (str parsing, closures) and a Kani run with 7 symbolic bytes did not finish in 21 min / 12 GB; see DESIGN.md section 5",
     "C10": "agreement with glibc / CPython on IANA data is not expressible as a contract on tz-rs code",
     "C15": "quantifies over schedules and absence of global state anywhere; not a function contract",
